@@ -95,7 +95,8 @@ func tcpLogin(src string, port int, login, pw, name string) (*tcpClient, error) 
 }
 
 func freePortPair() int {
-	for p := 21000; p < 60000; p += 137 {
+	start := 21000 + (os.Getpid()*2)%30000
+	for p := start; p < 62000; p += 138 {
 		l1, e1 := net.Listen("tcp", fmt.Sprintf("127.0.0.1:%d", p))
 		if e1 != nil {
 			continue
@@ -283,6 +284,9 @@ func TestC03Net(t *testing.T) {
 	}
 	wg.Wait()
 	// ---- oracle
+	if !alive() && strings.Contains(childLog(), "address already in use") {
+		t.Fatalf("VERIF-INCONCLUSIVE the child could not bind its ports (taken by another process)")
+	}
 	if !alive() {
 		t.Fatalf("VERIF-VIOLATION C03 the server process terminated while %d connections from distinct addresses were being served (%d connected):\n%s", nconn, connected.Load(), childLog())
 	}
